@@ -1789,6 +1789,108 @@ theorem C10_kl_formula_dense (ε : ℝ) (d : Char → M2 ℝ) (psi : (Fin n → 
     obtain ⟨b', hb', rfl⟩ := List.mem_map.mp hit
     exact hguard b' hb'
 
+/-- **C10.2c for the density-matrix RBM, every non-empty list of bases and EVERY dictionary, no hypotheses left**: against
+its own normalised state `ρ/Z` (listed over `space × space`) `KL` is exactly `0`. -/
+theorem C10_kl_self_zero_mixed_rbm (ε : ℝ) (d : Char → M2 ℝ) (am ph : PRBM ℝ n h a) (b : Basis n) (bs : List (Basis n)) :
+    klMixed ε n d (rbmRho am ph) (rbmProbD am) (rbmZd am)
+      (.once (fun i j => ((rbmRho am ph (row n i) (row n j)).1 / rbmZd am, (rbmRho am ph (row n i) (row n j)).2 / rbmZd am)))
+      (some (b :: bs)) = .ok ⟨.pyfloat, 0⟩ := by
+  refine C10_kl_self_zero_mixed ε n d _ _ _ _ _ _ (C10_kl_resolve_once _ _) (by simp) ?_
+  intro it hit
+  obtain ⟨b', _, rfl⟩ := List.mem_map.mp hit
+  intro i j _ _; rfl
+
+/-- **C10.2c for the POSITIVE RBM wavefunction over a list of bases** (`dict = none`: rotated with the default dictionary,
+F10 fix), no hypotheses left. -/
+theorem C10_kl_self_zero_rbm_pos (ε : ℝ) (am : RBM ℝ n h) (b : Basis n) (bs : List (Basis n)) :
+    klPure ε n none (rbmPsiPos am) (rbmProb am) (rbmZ am)
+      (.once (fun k => ((vecOf n (rbmPsiPos am) k).1 / √(rbmZ am), (vecOf n (rbmPsiPos am) k).2 / √(rbmZ am))))
+      (some (b :: bs)) = .ok ⟨.pyfloat, 0⟩ := by
+  rw [(C10_pos_default_dict ε n (rbmPsiPos am) (rbmProb am) (rbmZ am)).1]
+  refine C10_kl_self_zero ε n defaultDict _ _ _ (C10_rbm_Z_pos am).le _ _ _ (C10_kl_resolve_once _ _) (by simp) ?_
+  intro it hit
+  obtain ⟨b', _, rfl⟩ := List.mem_map.mp hit
+  intro k; rfl
+
+/-- **C10.2a in dense form, density matrix, any dictionary with `Z ↦ 1`**: under the clamp guard `KL` of a single target
+matrix `T` over a list of bases is the mean of the Kullback–Leibler divergences between `Re (U_b T U_b†)(σ,σ)` and
+`Re (U_b ρ U_b†)(σ,σ)/Z`, `U_b` the dense Kronecker product of the registered matrices. -/
+theorem C10_kl_formula_dense_mixed (ε : ℝ) (d : Char → M2 ℝ) (hZ : m2c (d 'Z') = 1)
+    (rho : (Fin n → Bool) → (Fin n → Bool) → C ℝ)
+    (prob : (Fin n → Bool) → ℝ) (Z : ℝ) (T : ℕ → ℕ → C ℝ) (b : Basis n) (bs : List (Basis n))
+    (hguard : ∀ b' ∈ b :: bs, TGuard ε (2 ^ n) (mixedBorn n d b' (matAt n T))
+        ∧ InGuard ε (2 ^ n) (fun k => mixedBorn n d b' rho k / Z)) :
+    klMixed ε n d rho prob Z (.once T) (some (b :: bs))
+      = .ok ⟨.pyfloat, (((b :: bs).map (fun b' =>
+          klDiv (2 ^ n) (fun k => bornMixed (usOf d b') (Matrix.of fun x y => C10L.toC (matAt n T x y)) (row n k))
+            (fun k => bornMixed (usOf d b') (Matrix.of fun x y => C10L.toC (rho x y)) (row n k) / Z))).sum)
+              / ((b :: bs).length : ℕ)⟩ := by
+  rw [C10_kl_formula_mixed ε n d rho prob Z (.once T) (some (b :: bs)) _ (C10_kl_resolve_once _ _) (by simp)]
+  · rw [List.map_map, List.length_map]
+    have hm : ∀ b' ∈ b :: bs,
+        ((fun it : Basis n × TargetSrc (ℕ → ℕ → C ℝ) =>
+            klDiv (2 ^ n) (tBornMixed n d it) fun k => mixedBorn n d it.1 rho k / Z) ∘ fun b => (b, TargetSrc.rotate T)) b'
+          = klDiv (2 ^ n) (fun k => bornMixed (usOf d b') (Matrix.of fun x y => C10L.toC (matAt n T x y)) (row n k))
+              (fun k => bornMixed (usOf d b') (Matrix.of fun x y => C10L.toC (rho x y)) (row n k) / Z) := by
+      intro b' _
+      simp only [Function.comp, klDiv, tBornMixed]
+      refine Finset.sum_congr rfl (fun k _ => ?_)
+      rw [← C10_mixedBorn_dense d hZ b' (matAt n T) (row n k.val), ← C10_mixedBorn_dense d hZ b' rho (row n k.val),
+        basisIndex_row k.val k.isLt]
+    rw [List.map_congr_left hm]
+  · intro it hit
+    obtain ⟨b', hb', rfl⟩ := List.mem_map.mp hit
+    exact hguard b' hb'
+
+/-- non-vacuity of `C10_kl_formula_dense` (guard satisfiable at the top level): the rational rotation `exDict`, state
+`(1,0)`, non-real target `(0,i)` — Born distributions `(16/25, 9/25)` vs `(9/25, 16/25)`. -/
+example : ∃ v, klPure ((2 : ℝ)⁻¹ ^ 52) 1 (some exDict) exPsi (fun _ => 0) 1 (.once exTarget) (some [exBasis])
+    = .ok ⟨.pyfloat, v⟩ := by
+  have hε : ((2 : ℝ)⁻¹ ^ 52) ≤ 1 / 4 := by
+    calc ((2 : ℝ)⁻¹ ^ 52) ≤ (2 : ℝ)⁻¹ ^ 2 := pow_le_pow_of_le_one (by norm_num) (by norm_num) (by norm_num)
+      _ = 1 / 4 := by norm_num
+  have hv : vecOf 1 exPsi = fun k' => exPsi (row 1 k') := rfl
+  refine ⟨_, C10_kl_formula_dense _ exDict exPsi _ 1 exTarget exBasis [] ?_⟩
+  intro b' hb'
+  simp only [List.mem_singleton] at hb'
+  subst hb'
+  refine ⟨InGuard.tguard (fun k hk => ?_), fun k hk => ?_⟩
+  · simp only [pureBorn]; rw [ex_rot_target k (by simpa using hk)]
+    split_ifs <;> constructor <;> linarith
+  · simp only [pureBorn]; rw [hv, ex_rot_psi k (by simpa using hk)]
+    split_ifs <;> constructor <;> linarith
+
+/-- non-vacuity of `C10_kl_formula_dense_mixed`: one site, the maximally mixed state `𝟙/2` (`Z = 1`) against the target
+`diag(1/4, 3/4)` in the basis `Z` of the default dictionary (both distributions inside the guard, different). -/
+example : ∃ v, klMixed ((2 : ℝ)⁻¹ ^ 52) 1 defaultDict (fun σ τ => if σ = τ then ((1 / 2 : ℝ), (0 : ℝ)) else (0, 0))
+    (fun _ => 1 / 2) 1 (.once (fun i j => if i = j then ((if i = 0 then (1 / 4 : ℝ) else 3 / 4), (0 : ℝ)) else (0, 0)))
+    (some [(⟨#['Z'], rfl⟩ : Basis 1)]) = .ok ⟨.pyfloat, v⟩ := by
+  have hε : ((2 : ℝ)⁻¹ ^ 52) ≤ 1 / 4 := by
+    calc ((2 : ℝ)⁻¹ ^ 52) ≤ (2 : ℝ)⁻¹ ^ 2 := pow_le_pow_of_le_one (by norm_num) (by norm_num) (by norm_num)
+      _ = 1 / 4 := by norm_num
+  have hb : ∀ (ρ : (Fin 1 → Bool) → (Fin 1 → Bool) → C ℝ) (k : ℕ),
+      mixedBorn 1 defaultDict (⟨#['Z'], rfl⟩ : Basis 1) ρ k = (ρ (Metrics.row 1 k) (Metrics.row 1 k)).1 := by
+    intro ρ k
+    unfold mixedBorn
+    rw [C04_rho_probs, fastK_one _ _ (anyRot_false (by decide))]
+    simp [QV.toC]
+  refine ⟨_, C10_kl_formula_dense_mixed _ defaultDict C10_defaultDict_Z _ _ 1 _ _ [] ?_⟩
+  intro b' hb'
+  simp only [List.mem_singleton] at hb'
+  subst hb'
+  refine ⟨InGuard.tguard (fun k hk => ?_), fun k hk => ?_⟩
+  · simp only [hb, matAt, basisIndex_row k hk, if_true]
+    split_ifs <;> constructor <;> linarith
+  · simp only [hb, if_true]
+    constructor <;> linarith
+
+/-- `C10_kl_self_zero_mixed_rbm` / `C10_kl_self_zero_rbm_pos` have no hypotheses; an instance on the Hadamard-extended
+dictionary, bases `H S`, `Y Z`, `X X` -/
+example (ε : ℝ) (am ph : PRBM ℝ 2 h a) : klMixed ε 2 (userDict exKw) (rbmRho am ph) (rbmProbD am) (rbmZd am)
+    (.once (fun i j => ((rbmRho am ph (Metrics.row 2 i) (Metrics.row 2 j)).1 / rbmZd am, (rbmRho am ph (Metrics.row 2 i) (Metrics.row 2 j)).2 / rbmZd am)))
+    (some [⟨#['H', 'S'], rfl⟩, ⟨#['Y', 'Z'], rfl⟩, ⟨#['X', 'X'], rfl⟩]) = .ok ⟨.pyfloat, 0⟩ :=
+  C10_kl_self_zero_mixed_rbm ε _ am ph _ _
+
 /-- non-vacuity on the Hadamard-extended dictionary: the new letter `H` reads as the Hadamard matrix, the overridden `Y`
 as the user's matrix (NOT the default `dY`), the untouched `X` as the default; every lookup is unitary and `Z ↦ 1`. -/
 example : userDict exKw 'H' = Unitaries.dX ∧ userDict exKw 'Y' = (fun r c => ((if r == c then 0 else 1), 0))
